@@ -222,7 +222,7 @@ func (v *Verifier) fuzzSearch(o *Obligation, fx *FnCtx, fn *ssa.Function, fc *Fu
 	sb.WriteString(")\n\nvar _ = unsafe.Pointer(nil)\n")
 	sb.WriteString(decls)
 	sb.WriteString(fuzzHelpers)
-	fmt.Fprintf(&sb, "\nfunc TestHvcReplay(t *testing.T) {\n\trng := rand.New(rand.NewSource(%d))\n\ttried := 0\n\tfor iter := 0; iter < 400000 && tried < 60000; iter++ {\n", seed+1)
+	fmt.Fprintf(&sb, "\nfunc TestHvcReplay(hvcT *testing.T) {\n\trng := rand.New(rand.NewSource(%d))\n\ttried := 0\n\tfor iter := 0; iter < 400000 && tried < 60000; iter++ {\n", seed+1)
 	sb.WriteString(body.String())
 	sb.WriteString("\t}\n\tfmt.Printf(\"HVC-REPLAY: not reproduced (%d random inputs satisfied the preconditions)\\n\", tried)\n}\n")
 	_ = os.MkdirAll(outDir, 0o755)
